@@ -87,14 +87,14 @@ func c13ReadValueReader(vr parquet.ColumnChunkValueReader, from int64) (any, err
 	buf := make([]parquet.Value, 11)
 	for spins := 0; spins < 1<<16; spins++ {
 		n, err := vr.ReadValues(buf)
+		if err != nil && err != io.EOF {
+			return out, err
+		}
 		for _, v := range buf[:n] {
 			out = append(out, fmt.Sprintf("%+v", v))
 		}
 		if err == io.EOF {
 			return out, nil
-		}
-		if err != nil {
-			return out, err
 		}
 	}
 	return out, errors.New("c13: reader does not terminate")
@@ -111,14 +111,14 @@ func c13ReadOldReaderRows(r *parquet.Reader, from int64) (any, error) {
 	buf := make([]parquet.Row, 13)
 	for spins := 0; spins < 1<<16; spins++ {
 		n, err := r.ReadRows(buf)
+		if err != nil && err != io.EOF {
+			return out, err
+		}
 		for i := 0; i < n; i++ {
 			out = append(out, buf[i].Clone())
 		}
 		if err == io.EOF {
 			return out, nil
-		}
-		if err != nil {
-			return out, err
 		}
 	}
 	return out, errors.New("c13: reader does not terminate")
